@@ -223,8 +223,8 @@ func LAY7(e *Env) {
 
 var inputPrims = map[string]bool{
 	"io.ReadFull": true, "io.ReadAtLeast": true, "io.CopyN": true,
-	"encoding/binary.Read":                                  true,
-	"strconv.ParseFloat": true, "strconv.ParseInt": true, "strconv.ParseUint": true, "strconv.Atoi": true,
+	"encoding/binary.Read": true,
+	"strconv.ParseFloat":   true, "strconv.ParseInt": true, "strconv.ParseUint": true, "strconv.Atoi": true,
 	"(io.Reader).Read": true, "(*bufio.Reader).ReadString": true, "(*bufio.Reader).ReadByte": true,
 	"(*bufio.Reader).ReadBytes": true, "(*bufio.Reader).Read": true, "(*bufio.Reader).ReadLine": true,
 }
